@@ -78,23 +78,40 @@ func parseRun(t []string) (mode string, tol int64, n int, me, off uint32, times 
 	return
 }
 
-// runCons drives a real Consensus; steps are "c<ns>" (ChangeView) or "t<ns>" (TryChangeView).
-func runCons(forkH, height uint32, running bool, tol int64, n int, me, off uint32, steps []string) []st {
+// runCons drives a real Consensus inside a real DPOSManager; steps are "c<ns>"
+// (Consensus.ChangeView), "t<ns>" (Consensus.TryChangeView), "o<ns>" (DPOSManager.OnChangeView,
+// the timer entry point; prints the number of ResetView broadcasts so far) and "r" (a ResetView
+// message arrives: was it forwarded to the dispatcher).
+func runCons(forkH, height uint32, running bool, tol int64, n int, me, off uint32, steps []string) ([]st, []string) {
 	vc := manager.NewVerifConsensus(time.Duration(tol), forkH, height, running, n, me, base, off)
 	var res []st
+	var outs []string
 	for _, x := range steps {
+		if x == "r" {
+			if vc.OnResetViewMsg() {
+				outs = append(outs, "f1")
+			} else {
+				outs = append(outs, "f0")
+			}
+			continue
+		}
 		now := base.Add(time.Duration(i64(x[1:])))
+		extra := ""
 		switch x[0] {
 		case 'c':
 			vc.ChangeView(now)
 		case 't':
 			vc.TryChangeView(now)
+		case 'o':
+			extra = fmt.Sprintf(",r%d", vc.OnChangeView(now))
 		default:
 			panic("harness: bad step " + x)
 		}
-		res = append(res, st{vc.Offset(), int64(vc.StartTime().Sub(base)), vc.OnDuty()})
+		s := st{vc.Offset(), int64(vc.StartTime().Sub(base)), vc.OnDuty()}
+		res = append(res, s)
+		outs = append(outs, s.String()+extra)
 	}
-	return res
+	return res, outs
 }
 
 func parseCons(t []string) (forkH, height uint32, running bool, tol int64, n int, me, off uint32, steps []string) {
@@ -105,11 +122,8 @@ func exec(t []string) string {
 	switch t[0] {
 	case "cons": // cons <forkHeight> <height> <running> <tolerance> <arbiters> <me> <offset> <c|t><ns> …
 		forkH, height, running, tol, n, me, off, steps := parseCons(t)
-		var parts []string
-		for _, s := range runCons(forkH, height, running, tol, n, me, off, steps) {
-			parts = append(parts, s.String())
-		}
-		return strings.Join(parts, " ")
+		_, outs := runCons(forkH, height, running, tol, n, me, off, steps)
+		return strings.Join(outs, " ")
 	case "v0": // v0 <tolerance ns> <duration ns>
 		o, r := manager.VerifOffsetV0(time.Duration(i64(t[1])), time.Duration(i64(t[2])))
 		return fmt.Sprintf("ok %d %d", o, int64(r))
@@ -265,6 +279,9 @@ func gen(g *hx.Gen) {
 			tol = tols[r.Intn(len(tols))]
 		}
 		off := genCur(r, nn)
+		if r.Chance(3) { // uint32 wrap regime of the view offset itself
+			off = 0xffffffff - uint32(r.Intn(40))
+		}
 		me := uint32(r.Intn(int(nn)))
 		T := genDur(r, 2500)
 		if T < 0 {
@@ -307,13 +324,26 @@ func gen(g *hx.Gen) {
 		if r.Chance(40) {
 			ts = ts[len(ts)-1:]
 		}
-		steps := make([]string, len(ts))
-		for j, t := range ts {
+		if r.Chance(15) { // long stalls: the pre-V1 offset passes maxViewOffset (ResetView broadcast)
+			T = int64(400+r.Intn(400)) * 5 * sec / 4
+			ts = genTimes(r, T)
+		}
+		var steps []string
+		for _, t := range ts {
 			k := "t"
-			if r.Chance(40) {
+			switch r.Intn(10) {
+			case 0, 1, 2:
 				k = "c"
+			case 3, 4, 5:
+				k = "o"
 			}
-			steps[j] = k + strconv.FormatInt(t, 10)
+			steps = append(steps, k+strconv.FormatInt(t, 10))
+			if r.Chance(15) {
+				steps = append(steps, "r")
+			}
+		}
+		if r.Chance(5) { // an observer that is not a current arbiter
+			me = uint32(nn) + uint32(r.Intn(3))
 		}
 		g.Emit("cons %d %d %d %d %d %d %d %s", forkH, height, running, 5*sec, nn, me, off, strings.Join(steps, " "))
 	}
@@ -332,14 +362,41 @@ func oracle(t []string, out string) *hx.Violation {
 		if !running || len(steps) == 0 {
 			return nil
 		}
-		T := i64(steps[len(steps)-1][1:])
+		// the manager's pre-V1 extras must be off from ChangeViewV1Height on
+		if height >= forkH {
+			for _, o := range strings.Fields(out) {
+				if o == "f1" {
+					return &hx.Violation{Kind: "manager-reset-view-after-v1", Detail: fmt.Sprintf("height %d >= ChangeViewV1Height %d but a ResetView message was forwarded to the dispatcher", height, forkH)}
+				}
+				if i := strings.Index(o, ",r"); i >= 0 && o[i+2:] != "0" {
+					return &hx.Violation{Kind: "manager-reset-view-after-v1", Detail: fmt.Sprintf("height %d >= ChangeViewV1Height %d but OnChangeView broadcast a ResetView message", height, forkH)}
+				}
+			}
+		}
+		last := ""
+		for i := len(steps) - 1; i >= 0; i-- {
+			if steps[i] != "r" {
+				last = steps[i]
+				break
+			}
+		}
+		if last == "" {
+			return nil
+		}
+		T := i64(last[1:])
 		if T <= tol {
 			return nil
 		}
-		a := runCons(forkH, height, true, tol, n, me, off, []string{"c" + strconv.FormatInt(T, 10)})[0]
-		b := runCons(forkH, height, true, tol, n, me, off, []string{"t" + strconv.FormatInt(T, 10)})[0]
+		ts := strconv.FormatInt(T, 10)
+		ra, _ := runCons(forkH, height, true, tol, n, me, off, []string{"c" + ts})
+		rb, _ := runCons(forkH, height, true, tol, n, me, off, []string{"t" + ts})
+		rc, _ := runCons(forkH, height, true, tol, n, me, off, []string{"o" + ts})
+		a, b, c := ra[0], rb[0], rc[0]
 		if a.off != b.off || a.start != b.start {
 			return &hx.Violation{Kind: "cons-entry-points-disagree", Detail: fmt.Sprintf("height %d (ChangeViewV1Height %d), evaluated once at %d: ChangeView gives offset %d start %d, TryChangeView gives offset %d start %d", height, forkH, T, a.off, a.start, b.off, b.start)}
+		}
+		if a.off != c.off || a.start != c.start {
+			return &hx.Violation{Kind: "cons-entry-points-disagree", Detail: fmt.Sprintf("height %d (ChangeViewV1Height %d), evaluated once at %d: ChangeView gives offset %d start %d, DPOSManager.OnChangeView gives offset %d start %d", height, forkH, T, a.off, a.start, c.off, c.start)}
 		}
 		return nil
 	}
@@ -349,6 +406,9 @@ func oracle(t []string, out string) *hx.Violation {
 	mode, tol, n, me, off, times := parseRun(t)
 	if mode != "cv0" && mode != "cv1" {
 		return nil
+	}
+	if off > 1<<31 {
+		return nil // the theorems assume no uint32 wrap of the offset (2^32 views); correspondence only
 	}
 	if len(times) == 0 {
 		return nil
